@@ -13,6 +13,7 @@ mod c13;
 mod c04;
 mod c01;
 mod c06;
+mod c17;
 
 fn main() {
     // silence the default panic message: panics are observations here
@@ -31,6 +32,7 @@ fn main() {
         "c13" => c13::run(rest),
         "c04" => c04::run(rest),
         "c06" | "c07" => c06::run(rest),
+        "c17" => c17::run(rest),
         "c01" | "c02" => c01::run(rest),
         other => {
             eprintln!("unknown subcommand {other}");
